@@ -123,11 +123,18 @@ func (c *P2Claims) SetSoftwareComponents(scs []ISwComponent) error {
 		return fmt.Errorf("%w: there MUST be at least one entry", ErrMandatoryClaimMissing)
 	}
 
-	if c.SwComponents == nil {
-		c.SwComponents = &SwComponents[*SwComponent]{}
+	swComponents := c.SwComponents
+	if swComponents == nil {
+		swComponents = &SwComponents[*SwComponent]{}
 	}
 
-	return c.SwComponents.Replace(scs)
+	if err := swComponents.Replace(scs); err != nil {
+		return err
+	}
+
+	c.SwComponents = swComponents
+
+	return nil
 }
 
 func (c *P2Claims) SetNonce(v []byte) error {
